@@ -137,6 +137,13 @@ func TestCheck(t *testing.T) {
 				return pLog{w}, nil
 			},
 			Gen: gen,
+			GenRejected: func(rng *rand.Rand, id, epoch uint64) walrig.Ent {
+				// a ticket beyond cbor-gen's byte-array limit: sender, vote and signature are emitted,
+				// then the encoder fails
+				m := &gpbft.GMessage{Sender: gpbft.ActorID(id), Vote: genPayload(rng, epoch, 100), Signature: randBytes(rng, 96),
+					Ticket: make([]byte, (2<<20)+1+rng.Intn(16))}
+				return walrig.Ent{Epoch: epoch, ID: id, Raw: []byte("rejected"), Obj: m}
+			},
 		},
 		Quick:        8,
 		Thorough:     120,
